@@ -11,7 +11,7 @@ LEVEL_TEXT = ('Held on the queries observed: for each program (generated CS1 pro
               'ensure fires iff count < n, prevent fires iff count > m, the reported line is a line of one of the oracle\'s nodes, and '
               'find_operation/find_function_calls/find_asts return nodes at exactly the oracle\'s positions. The symbol table (all '
               'comparison, boolean, binary and unary symbols) is covered completely in both tiers; queries for other code through '
-              'CAIT are interleaved so that a stale tree would show.')
+              'CAIT are interleaved so that a stale tree would show; the program is also put on a report of the grader\'s own.')
 LEVEL_NOTE = ('Symbol -> node class comes from Python\'s grammar, not from pedal\'s tables. + and - are binary only (as pedal documents); '
               'augmented assignment is a different symbol. ensure/prevent_import thresholds are documented as ignored.')
 RULE = ('Query = (program, query kind, name/symbol/literal/type, threshold relation). Non-trivial: the queried thing occurs at least '
